@@ -296,7 +296,14 @@ class Sym:
     def __round__(self, n=None):
         if self.is_const():
             return round(self.const(), n)
-        raise HarnessError("round() of symbolic value")
+        if n not in (None, 0):
+            raise HarnessError("round(symbolic, ndigits)")
+        # Python rounds half to even
+        h = self + Fraction(1, 2)
+        k = _floor(h)
+        if k % 2 == 1 and bool(h == k):
+            k -= 1
+        return k
 
     # -- comparisons
     def _cmp(self, o, op, swap=False):
